@@ -27,6 +27,16 @@ impl MemTable {
     }
 
     pub fn tombstone_node(&mut self, node: InternalNodeId) {
+        // Relationships created earlier in this transaction die with the node; otherwise the
+        // other endpoint keeps returning a relationship to a node that no longer exists.
+        self.out.retain(|_, edges| {
+            edges.retain(|edge| edge.src != node && edge.dst != node);
+            !edges.is_empty()
+        });
+        self.in_.retain(|_, edges| {
+            edges.retain(|edge| edge.src != node && edge.dst != node);
+            !edges.is_empty()
+        });
         self.tombstoned_nodes.insert(node);
     }
 
